@@ -54,6 +54,8 @@ def gen_ops(tier, r):
         rem = r.randrange(34, md)
         e0 = r.choice([UMAX, UMAX, UMAX - r.randrange(1, 40)])
         ops.append(("top-dense", f"count {e0 - (md * k + rem)} {e0} 16 {t} {md}"))
+    # the largest sieve size with EratBig engaged: multipleIndex needs all 23 bits (one 8 MiB segment = 2.5e8 numbers)
+    ops.append(("max-sieve-size", f"count {10**15 + r.randrange(0, 10**6)} {10**15 + 10**6 + r.randrange(0, 10**6)} 8192 1 0"))
     # more than one segment below 2^64-1 (16 KiB sieve = 491520 numbers per segment)
     ops.append(("top-multi-segment", f"count {UMAX - 600000} {UMAX} 16 1 0"))
     ops.append(("top-multi-segment", f"count {UMAX - 1000000 - r.randrange(0, 1000)} {UMAX - r.randrange(0, 40)} 16 {r.choice([1, 2])} {r.choice([0, 300000])}"))
